@@ -5,6 +5,7 @@ import (
 	"encoding/csv"
 	"fmt"
 	"strconv"
+	"strings"
 	"time"
 
 	"github.com/jamespfennell/gtfs"
@@ -236,6 +237,9 @@ func c20Check(c *core.Ctx, j *journal.Journal, origin string) {
 	}
 }
 
+// c20CellLens: lengths of one long cell (around the usual line-buffer sizes).
+var c20CellLens = []int{255, 256, 1023, 1024, 4095, 4096, 4097, 8192, 16384, 32768, 65535, 65536, 65537, 70000, 131072, 262145}
+
 // c20Sizes: journal sizes swept over the threshold list (trip count, and stop times of one trip).
 func c20Sizes(tier string) []int {
 	if tier == "thorough" {
@@ -272,6 +276,34 @@ func runC20(c *core.Ctx) {
 			c.Shape(fmt.Sprintf("size-sweep stops=%d", n))
 		}
 		c20Check(c, j, fmt.Sprintf("size sweep n=%d", n))
+		return
+	}
+	if k := c.Index - 2*len(c20Sizes(c.Tier)); k < len(c20CellLens) {
+		// long cells: one id or track of a threshold length (a row longer than a 4 KiB / 64 KiB line buffer), ASCII without
+		// CSV metacharacters, in the middle of a small journal
+		n := c20CellLens[k]
+		long := strings.Repeat("x", n-1) + "y"
+		a := time.Unix(1700000100, 0)
+		mk := func(uid string) journal.Trip {
+			return journal.Trip{TripUID: uid, TripID: "000001_A..N", RouteID: "A", VehicleID: "v", StartTime: time.Unix(1700000000, 0), LastObserved: time.Unix(1700000500, 0),
+				StopTimes: []journal.StopTime{{StopID: "S1", ArrivalTime: &a, LastObserved: a}, {StopID: "S2", DepartureTime: &a, LastObserved: a}}}
+		}
+		j := &journal.Journal{Trips: []journal.Trip{mk("1_u"), mk("2_u"), mk("3_u")}}
+		switch k % 4 {
+		case 0:
+			tr := long
+			j.Trips[1].StopTimes[0].Track = &tr
+		case 1:
+			j.Trips[1].StopTimes[1].StopID = long
+		case 2:
+			j.Trips[1].VehicleID = long
+		default:
+			q := n / 4
+			j.Trips[1].TripUID, j.Trips[1].TripID, j.Trips[1].RouteID, j.Trips[1].VehicleID = long[:q], long[:q], long[:q], long[:n-3*q]
+		}
+		c.Feature("long-cell")
+		c.Shape(fmt.Sprintf("long-cell len=%d where=%d", n, k%4))
+		c20Check(c, j, fmt.Sprintf("long cell of %d bytes", n))
 		return
 	}
 	if c.Index%4 == 3 {
